@@ -1218,6 +1218,32 @@ fn main() {
     let lock_versions = parse_lock(repo_lock.as_deref().unwrap_or(""));
     let harness_lock_versions = parse_lock(&std::env::args().nth(4).and_then(|p| std::fs::read_to_string(p).ok()).unwrap_or_default());
     writeln!(o, "Definition repo_lock_present : bool := {}.\n", if repo_lock.is_some() { "true" } else { "false" }).unwrap();
+    // ---- impls of the dispatch traits (Authenticator of either protocol, the combined one, Rpc): which types get the provided
+    // methods decides where a call ends; a further impl (say a forwarding impl for &mut A) changes method resolution
+    let mut dispatch_impls: Vec<(String, String)> = vec![];
+    for li in &w.items {
+        if let Item::Impl(im) = &li.item {
+            if let Some((_, tpath, _)) = &im.trait_ {
+                let last = tpath.segments.last().map(|x| x.ident.to_string()).unwrap_or_default();
+                if last == "Authenticator" || last == "Rpc" {
+                    dispatch_impls.push((
+                        mod_join(&li.module, &tpath.to_token_stream().to_string().replace(' ', "")),
+                        format!(
+                            "{} for {}",
+                            im.generics.to_token_stream().to_string().replace(' ', ""),
+                            im.self_ty.to_token_stream().to_string().replace(' ', "")
+                        ),
+                    ));
+                }
+            }
+        }
+    }
+    writeln!(
+        o,
+        "Definition dispatch_impls : list (string * string) := [\n  {}].\n",
+        dispatch_impls.iter().map(|(k, v)| format!("({}, {})", cs(k), cs(v))).collect::<Vec<_>>().join(";\n  ")
+    )
+    .unwrap();
     writeln!(
         o,
         "Definition harness_lock_versions : list (string * string) := [\n  {}].\n",
